@@ -34,10 +34,51 @@ Definition p_reply (r : reply) : preply :=
       let '(r, a, b, c, d, e) := x in (r, PS a, PS b, PS c, PS d, PS e))) l)
   end.
 
-Definition p_obs (o : obs) :=
-  let '(r, l, p, s, g) := o in (p_reply r, l, p, s, g).
+(* ---- grouped execution: one group = the sub-operations of one client call -- *)
+Fixpoint exec_group (d : db) (ops : list op) : db * list reply :=
+  match ops with
+  | [] => (d, [])
+  | o :: rest =>
+    let '(d1, r) := exec idig d o in
+    let '(d2, rs) := exec_group d1 rest in
+    (d2, r :: rs)
+  end.
 
-Definition run_io (ops : list op) :=
-  (map p_obs (run_obs idig db0 ops),
-   let '(ixs, tbs) := final idig db0 ops in
-   (map (map PS) ixs, map (map (fun e => (PS (fst e), snd e))) tbs)).
+Definition gobs :=
+  (list preply * list nat * ptbl * list (Z * Z) * list (option Z))%type.
+
+Fixpoint run_groups (d : db) (gs : list (list op)) : list gobs * db :=
+  match gs with
+  | [] => ([], d)
+  | g :: rest =>
+    let '(d1, rs) := exec_group d g in
+    let '(os, d2) := run_groups d1 rest in
+    ((map p_reply rs, lens (dcat d1), prime (dcat d1), store d1, stage d1) :: os, d2)
+  end.
+
+Definition run_io (gs : list (list op)) :=
+  let '(os, d) := run_groups db0 gs in
+  let c := dcat d in
+  (os,
+   (map (map PS) [i_target c; i_task c; i_alg c; i_state c; i_value c],
+    map (map (fun e => (PS (fst e), snd e)))
+        [t_target c; t_task c; t_alg c; t_state c; t_value c])).
+
+(* Interface._load walks the state vector of the algorithm and then the
+   MetricStateVector (dawgie.util.metrics): 14 values, sv version 1.1.1,
+   value version 1.1.0 *)
+Definition MSV_VALS : list string :=
+  ["db_input"; "db_memory"; "db_output"; "db_pages"; "db_system"; "db_user";
+   "db_wall"; "task_input"; "task_memory"; "task_output"; "task_pages";
+   "task_system"; "task_user"; "task_wall"]%string.
+
+Definition hl_load (r : Z) (tn task alg : name) (aver : ver) (sv : name)
+           (sver : ver) (vals : list (name * ver)) : list op :=
+  map (fun x => OLoad r tn (mkid task alg aver sv sver (fst x) (snd x))) vals
+  ++ map (fun vn => OLoad r tn (mkid task alg aver (NM "__metric__") (1, 1, 1)%Z
+                                     (NM vn) (1, 1, 0)%Z)) MSV_VALS.
+
+Definition hl_upd (r : Z) (tn task alg : name) (aver : ver) (sv : name)
+           (sver : ver) (vals : list (name * ver * Z * option nat)) : list op :=
+  map (fun x => let '(vn, vv, c, st) := x in
+                OUpd r tn (mkid task alg aver sv sver vn vv) c st) vals.
